@@ -10,8 +10,14 @@ Definition dot : N := 46%N.
 (* isRotationSuffix: 14 bytes, all decimal digits ("20060102150405") *)
 Definition is_rotation_suffix (s : bytes) : bool := (length s =? 14)%nat && forallb is_digit s.
 
+(* MaxAge hours as a time.Duration (int64 nanoseconds): beyond this many hours the product overflows, and the scan
+   returns without deleting anything (about 292 years: no file is that old) *)
+Definition max_age_fit : Z := 2562047.
+Definition age_fits (max_age : Z) : bool := Z.abs max_age <=? max_age_fit.
+
 (* the test applied to one directory entry: true = os.Remove *)
 Definition deletes (file_name : bytes) (max_age now : Z) (e : dirent) : bool :=
+  age_fits max_age &&
   (de_kind e =? 0)%N &&
   match drop_prefix (file_name ++ [dot]) (de_name e) with
   | Some suffix => is_rotation_suffix suffix
